@@ -209,21 +209,6 @@ def r13b(run):
     run.check("R13b", f, "the field's schema is generated from output_type in the output view and type otherwise", ok,
               construct="field type view", message="generate_for_field does not select f.output_type / f.type by self.output",
               necessity="the output schema describes the input type of a field whose output type differs")
-    g = run.repo.func(GEN, "JsonSchemaGenerator.generate_for_dataclass")
-    ga = analysis(g)
-    PARSER, DATA, OPTS = _dc_roles(ga)
-    sw = [n for n in ga.cfg.nodes if n.kind == "stmt" and isinstance(n.ast, ast.Assign)
-          and unparse(n.ast.targets[0]) == OPTS and "output_options" in unparse(n.ast.value)]
-    ok = bool(sw) and all(("self.output", True) in _facts(ga, n) for n in sw)
-    run.check("R13b", g, "output_options replace the options only in the output view", ok, construct="options view",
-              message="generate_for_dataclass applies parser.output_options outside the self.output branch (or never)",
-              necessity="required / additionalProperties of the input schema follow the output options")
-    nd = [n for n in ga.cfg.nodes if n.ast is not None and n.kind in ("stmt", "test")
-          and any(isinstance(s, ast.Attribute) and s.attr == "no_default" for s in walk_shallow(n.ast))]
-    ok = bool(nd) and all(("self.output", True) in _facts(ga, n) for n in nd)
-    run.check("R13b", g, "fields with a default count as required only in the output view", ok, construct="default required",
-              message="generate_for_dataclass marks defaulted fields as required outside the output view",
-              necessity="the input schema demands fields the parser fills in itself")
 
 
 def _dc_roles(ga):
@@ -246,194 +231,118 @@ def _dc_roles(ga):
     return parser, data, opts
 
 
-def r13c(run):
+def dataclass_document_table(run):
+    """generate_for_dataclass interpreted (absint.py) over its decision domain: view (input / output), output options present
+    or not, the effective options' addition policy (None / True / False / a type), no_default and defer_default, and one
+    probe field that is listed or not, required or not under the effective options, declared with / without a default,
+    deferred or not, with / without dependencies and whose table key differs from its declared name; a second field is always
+    listed and required.  -> list of (clause, rule, label, got, want) mismatches"""
+    import itertools
+    from ..absint import Interp, Obj, Raised
     g = run.repo.func(GEN, "JsonSchemaGenerator.generate_for_dataclass")
-    ga = analysis(g)
-    PARSER, DATA, OPTS = _dc_roles(ga)
-    loops = [n for n in ga.cfg.nodes if n.kind == "iter" and f"{PARSER}.fields" in unparse(n.ast)]
-    if not loops:
-        raise AnalysisError("generate_for_dataclass: loop over parser.fields not found")
-    if unparse(loops[0].ast) != f"{PARSER}.fields.items()":
-        run.check("R13c", g, "every declared field is considered for the schema", False, construct="field loop domain",
-                  message=f"generate_for_dataclass iterates `{unparse(loops[0].ast)}` instead of parser.fields.items()",
-                  necessity="fields missing from the iteration are missing from properties / required")
-    table_key = unparse(loops[0].stmt.target.elts[0]) if isinstance(loops[0].stmt.target, ast.Tuple) else None
-    fld = unparse(loops[0].stmt.target.elts[1]) if isinstance(loops[0].stmt.target, ast.Tuple) else None
-    # the name a property is published under: the field's declared name (`<field>.name`, directly or through a local).
-    # The table key is lower-cased for case-insensitive fields and is not what the parsed output carries.
-    named = {n.ast.targets[0].id for n in ga.cfg.nodes if n.kind == "stmt" and isinstance(n.ast, ast.Assign)
-             and isinstance(n.ast.targets[0], ast.Name) and unparse(n.ast.value) == f"{fld}.name"}
-    key = sorted(named)[0] if len(named) == 1 else f"{fld}.name"
-    # the published containers are found by role: data.update(required=<R>, properties=<P>, dependentRequired=<D>)
-    published = {}
-    for n, c in ga.all_calls():
-        if call_attr(c) == "update" and unparse(c.func.value) == DATA:
-            for kw in c.keywords:
-                if kw.arg in ("required", "properties", "dependentRequired") and isinstance(kw.value, ast.Name):
-                    published[kw.arg] = kw.value.id
-    R, P_, D = published.get("required"), published.get("properties"), published.get("dependentRequired")
-    if not (R and P_):
-        raise AnalysisError("generate_for_dataclass: published `required` / `properties` containers not found")
-    req_appends = []
-    for n, c in ga.all_calls():
-        if call_attr(c) == "append" and unparse(c.func.value) == R:
-            req_appends.append((n, c))
-    run.floor("R13c", "required.append sites", len(req_appends), 1)
-    pstores = [n for n in ga.cfg.nodes if n.kind == "stmt" and isinstance(n.ast, ast.Assign)
-               and isinstance(n.ast.targets[0], ast.Subscript) and unparse(n.ast.targets[0].value) == P_]
-    run.floor("R13c", "properties stores", len(pstores), 1)
-    def canon(k: str) -> str:
-        return f"{fld}.name" if k in named else k
-    key = canon(key)
-    pkeys = {canon(unparse(n.ast.targets[0].slice)) for n in pstores}
-    run.check("R13c", g, "properties are listed under the field's declared name", pkeys <= {key, f"{fld}.name"},
-              construct="properties keyed by the parser's table key",
-              message=f"generate_for_dataclass lists properties under {sorted(pkeys)}"
-                      + (f" (the key of parser.fields, `{table_key}`)" if table_key in pkeys else "")
-                      + f", not under {fld}.name",
-              necessity="with case_insensitive options the table key is lower-cased: the schema names (and requires) "
-                        "'username' while the parsed output carries 'userName' - the output fails validation")
-    for n in pstores:
-        # the property value is the result of generate_for_field for that field, and None results are skipped
-        val = n.ast.value
-        os_ = prov(ga).of_expr(n, val)
-        ok = any(o.kind == "call" and call_attr(o.node) == "generate_for_field" for o in os_) \
-            and any(t.endswith("is None") and not p for t, p in _facts(ga, n))
-        run.check("R13c", g, "a property is listed iff generate_for_field yields a schema for it", ok,
-                  construct="properties store", message=f"`{norm_stmt(n.ast)}` is not the (non-None) result of "
-                  f"generate_for_field", necessity="properties lists fields the view excludes (or omits included ones)",
-                  node=n.ast)
-    for n, c in req_appends:
-        k = canon(unparse(c.args[0])) if c.args else ""
-        run.check("R13c", g, f"`required` uses the property key `{k}`", k in pkeys and k == key,
-                  construct="required key differs from property key",
-                  message=f"required.append({k}) does not use the key under which the property is listed ({sorted(pkeys)})",
-                  necessity="required names a property that `properties` does not contain (aliased fields)", node=c)
-        fs = _facts(ga, n)
-        by_pred = any(t.startswith(f"{fld}.is_required(") and p for t, p in fs)
-        by_default = ("self.output", True) in fs and any(t.startswith(f"{fld}.is_required(") and not p for t, p in fs) \
-            and any("no_default" in t and not p for t, p in fs)
-        run.check("R13c", g, "a name is required iff the parser's own is_required holds (output view: or it has a default)",
-                  by_pred or by_default, construct="required not decided by is_required",
-                  message=f"`{unparse(c)}` is guarded by {sorted(t for t, p in fs if 'required' in t or 'default' in t)}: "
-                          f"not by {fld}.is_required(options)",
-                  necessity="`required` disagrees with the fields whose absence is an error (ignore_required, mode "
-                            "strings, no_input fields)", node=c)
-        # must come after the `value is None` skip
-        ok = any(t.endswith("is None") and not p for t, p in fs)
-        run.check("R13c", g, "only listed properties can be required", ok, construct="required for unlisted property",
-                  message=f"`{unparse(c)}` can run for a field that generate_for_field excluded from the view",
-                  necessity="`required` names a property absent from `properties`: every instance fails validation", node=c)
-    # is_required receives the same options as the field view
-    def opt_like(a):
-        return a.split(" ")[0] == OPTS
-    for n, c in ga.all_calls():
-        if call_attr(c) == "is_required":
-            a = unparse(c.args[0]) if c.args else unparse(kwarg(c, "options"))
-            run.check("R13c", g, "is_required is asked with the view's options", (a.startswith(OPTS) or opt_like(a)),
-                      construct="is_required options", message=f"`{unparse(c)}` does not pass the view's options",
-                      necessity="mode / ignore_required of the class are ignored when computing `required`", node=c)
-    dep = [n for n in ga.cfg.nodes if n.kind == "stmt" and isinstance(n.ast, ast.Assign)
-           and isinstance(n.ast.targets[0], ast.Subscript) and D and unparse(n.ast.targets[0].value) == D]
-    ok = bool(dep) and all(canon(unparse(n.ast.targets[0].slice)) == key and "dependencies" in unparse(n.ast.value) for n in dep)
-    run.check("R13c", g, "dependentRequired maps the property key to the field's dependencies", ok,
-              construct="dependentRequired", message="generate_for_dataclass no longer emits dependent_required[name] = "
-              "field.dependencies")
-    # what is stored in the document is JSON: a field's dependencies are kept as a set by the parser
-    for n in dep:
-        v = n.ast.value
-        native = isinstance(v, ast.Call) and isinstance(v.func, ast.Name) and v.func.id in ("list", "sorted") \
-            or isinstance(v, (ast.List, ast.ListComp))
-        run.check("R13c", g, "dependentRequired lists the dependencies as a JSON array", native,
-                  construct="dependentRequired holds a non-JSON container",
-                  message=f"`{norm_stmt(n.ast)}` stores the field's dependencies object (a set) into the document",
-                  necessity="json.dumps(schema) raises TypeError: Object of type set is not JSON serializable - the "
-                            "generated document is not a JSON Schema", node=n.ast)
-    # the output view requires a defaulted field only if the default is applied while parsing (not deferred)
-    for n, c in req_appends:
-        fs = _facts(ga, n)
-        if ("self.output", True) in fs and any("no_default" in t and not p for t, p in fs):
-            # every reason for which get_default withholds a default at parse time must be consulted here: read them from
-            # get_default itself (the option attributes tested before its early `return unprovided`)
-            gd = run.repo.func("utype.parser.field", "ParserField.get_default")
-            gda = analysis(gd)
-            withheld = set()
-            for m in gda.cfg.nodes:
-                if m.kind == "stmt" and isinstance(m.ast, ast.Return) and unparse(m.ast.value) == "unprovided":
-                    for a, p in gda.facts.atoms_at(m):
-                        oa = opt_attr(a)
-                        if oa and p:
-                            withheld.add(oa)
-            consulted = {opt_attr(a) for a, p in ga.facts.atoms_at(n) if opt_attr(a)}
-            for x in ast.walk(ast.Module(body=[b.test for b in ga.facts.branch_facts(n)], type_ignores=[])):
-                if isinstance(x, ast.Attribute) and opt_attr(x):
-                    consulted.add(opt_attr(x))
-            missing = sorted(w for w in withheld if w not in consulted)
-            run.check("R13c", g, f"the output view consults every option for which the parser withholds defaults "
-                                 f"({sorted(withheld)})", not missing,
-                      construct=f"output schema ignores {'/'.join(missing)}",
-                      message=f"`{unparse(c)}` marks defaulted fields as required in the output view without consulting "
-                              f"options.{', options.'.join(missing)} - ParserField.get_default returns no default under it",
-                      necessity="Options(no_default=True): the parsed output lacks every defaulted field but the output "
-                                "schema lists them under `required`: the output fails validation", node=c)
-            ok = any("defer_default" in t for t, p in fs)
-            run.check("R13c", g, "a deferred default does not make a field required in the output view", ok,
-                      construct="deferred defaults required in the output schema",
-                      message=f"`{unparse(c)}` marks every field with a default as required in the output view without "
-                              f"consulting defer_default (get_default withholds deferred defaults at parse time)",
-                      necessity="Field(default=3, defer_default=True): the output schema requires the key, the parsed "
-                                "instance does not contain it until the attribute is read: the output fails validation",
-                      node=c)
-    upd = {kw.arg for n, c in ga.all_calls() if call_attr(c) == "update" and unparse(c.func.value) == DATA
-           for kw in c.keywords}
-    for kw in ("properties", "required", "dependentRequired"):
-        run.check("R13c", g, f"`{kw}` is published", kw in upd, construct=f"{kw} not published",
-                  message=f"generate_for_dataclass never stores {kw} into the document")
+    C = run.repo.cls(GEN, "JsonSchemaGenerator")
+    methods = {m.name: m.node for m in C.methods.values()}
+    out = []
+    n = 0
+    for output, has_oo, addition, o_nodef, o_defer, listed, req, f_nodef, f_defer, deps in itertools.product(
+            (False, True), (False, True), (None, True, False, int), (False, True), (False, True),
+            (True, False), (True, False), (False, True), (False, True), (False, True)):
+        n += 1
+        own = Obj("Options", tag="class options", mode=None, addition=addition if not (output and has_oo) else "own-unused",
+                  no_default=o_nodef if not (output and has_oo) else "own-unused",
+                  defer_default=o_defer if not (output and has_oo) else "own-unused")
+        oo = Obj("Options", tag="output options", mode=None, addition=addition, no_default=o_nodef, defer_default=o_defer) \
+            if has_oo else None
+        eff = oo if (output and has_oo) else own
+        probe = Obj("ParserField", name="Probe", dependencies={"b", "a"} if deps else set(), no_default=f_nodef,
+                    defer_default=f_defer, is_required=lambda opts, _r=req: (_r if opts is eff else "asked-with-other-options"))
+        always = Obj("ParserField", name="Always", dependencies=set(), no_default=True, defer_default=False,
+                     is_required=lambda opts: True if opts is eff else "asked-with-other-options")
+        parser = Obj("ClassParser", name="Cls", options=own, output_options=oo, in_out_identical=True,
+                     fields={"probe": probe, "always": always}, schema_annotations=None)
+        t = Obj("T", __parser__=parser)
+
+        def gen_field(f_, options=None, _p=probe, _l=listed):
+            if f_ is _p and not _l:
+                return None
+            return {"schema-of": f_.name, "under": getattr(options, "tag", options)}
+        self_ = Obj("JsonSchemaGenerator", output=output, defs=None, options=Obj("Options", tag="generator options"),
+                    ref_prefix="#/$defs/", generate_for_field=gen_field, generate_for_type=lambda ty: {"schema-of-type": ty},
+                    names={})
+        ip = Interp(methods=methods, module=g.module, globals_={"ClassParser": "ClassParser"})
+        label = (f"{'output' if output else 'input'} view, output_options {'set' if has_oo else 'unset'}, addition={addition!r}, "
+                 f"options.no_default={o_nodef}, options.defer_default={o_defer}; probe field: listed={listed}, required={req}, "
+                 f"no_default={f_nodef}, defer_default={f_defer}, dependencies={deps}")
+        try:
+            doc = ip.call_function(g.node, (self_, t), {})
+        except Raised as r:
+            out.append(("the document is built", "R13c", label, f"raises {r.cls}", "a document"))
+            continue
+        if not isinstance(doc, dict):
+            out.append(("the document is built", "R13c", label, repr(doc)[:40], "a document"))
+            continue
+        tag = eff.tag
+        want_props = {"Always": {"schema-of": "Always", "under": tag}}
+        if listed:
+            want_props = {"Probe": {"schema-of": "Probe", "under": tag}, "Always": want_props["Always"]}
+        if doc.get("properties") != want_props:
+            clause = "properties lists exactly the fields of the view, under their declared names, generated with the view's options"
+            out.append((clause, "R13c", label, doc.get("properties"), want_props))
+        want_req = []
+        if listed and (req is True or (output and not o_nodef and not f_nodef and not (f_defer or o_defer))):
+            want_req.append("Probe")
+        want_req.append("Always")
+        if list(doc.get("required", [])) != want_req:
+            out.append(("required lists exactly the listed fields whose absence is an error (output view: or that carry an "
+                        "applied default)", "R13c", label, doc.get("required"), want_req))
+        want_dep = {"Probe": ["a", "b"]} if (listed and deps) else None
+        if doc.get("dependentRequired") != want_dep:
+            out.append(("dependentRequired maps a listed field's declared name to its dependencies as a sorted JSON array",
+                        "R13c", label, doc.get("dependentRequired"), want_dep))
+        if addition is None:
+            want_add = "absent"
+        elif addition is int:
+            want_add = {"schema-of-type": int}
+        else:
+            want_add = addition
+        got_add = doc.get("additionalProperties", "absent") if "additionalProperties" in doc else "absent"
+        if got_add != want_add or (isinstance(want_add, bool) and got_add is not want_add):
+            out.append(("additionalProperties is absent without a policy, the literal for a boolean policy, the type's schema "
+                        "for a typed one - read from the view's options", "R13d", label, got_add, want_add))
+        if doc.get("type") != "object":
+            out.append(("the document announces an object", "R13c", label, doc.get("type"), "object"))
+    return g, out, n
+
+
+def r13c(run):
+    g, mism, n = dataclass_document_table(run)
+    run.floor("R13c", "abstract input classes of generate_for_dataclass evaluated", n, 2000)
+    clauses = {}
+    for clause, rule, label, got, want in mism:
+        clauses.setdefault((rule, clause), (label, got, want))
+    ALL = [("R13c", "the document is built"),
+           ("R13c", "properties lists exactly the fields of the view, under their declared names, generated with the view's options"),
+           ("R13c", "required lists exactly the listed fields whose absence is an error (output view: or that carry an applied default)"),
+           ("R13c", "dependentRequired maps a listed field's declared name to its dependencies as a sorted JSON array"),
+           ("R13c", "the document announces an object"),
+           ("R13d", "additionalProperties is absent without a policy, the literal for a boolean policy, the type's schema for a "
+                    "typed one - read from the view's options")]
+    for rule, clause in ALL:
+        w = clauses.get((rule, clause))
+        run.check(rule, g, clause, w is None, construct=f"generate_for_dataclass: {clause[:70]}",
+                  message=f"generate_for_dataclass: {clause} - but for [{w[0] if w else ''}] the document has "
+                          f"{w[1] if w else ''!r} instead of {w[2] if w else ''!r}",
+                  necessity="the generated schema and the parser disagree: parsed outputs fail validation against the output "
+                            "schema, or the input schema lists / requires / admits other keys than the parser takes")
+    for (rule, clause), w in clauses.items():
+        if (rule, clause) not in ALL:
+            run.check(rule, g, clause, False, construct=f"generate_for_dataclass: {clause[:70]}",
+                      message=f"generate_for_dataclass: {clause}: for [{w[0]}] got {w[1]!r}, expected {w[2]!r}")
 
 
 def r13d(run):
-    g = run.repo.func(GEN, "JsonSchemaGenerator.generate_for_dataclass")
-    ga = analysis(g)
-    PARSER, DATA, OPTS = _dc_roles(ga)
-    sites = [(n, c, kw) for n, c in ga.all_calls() if call_attr(c) == "update" and unparse(c.func.value) == DATA
-             for kw in c.keywords if kw.arg == "additionalProperties"]
-    run.floor("R13d", "additionalProperties emissions", len(sites), 2)
-    src = [n for n in ga.cfg.nodes if n.kind == "stmt" and isinstance(n.ast, ast.Assign)
-           and isinstance(n.ast.targets[0], ast.Name) and unparse(n.ast.value).endswith(".addition")]
-    ok = bool(src) and all(unparse(n.ast.value) == f"{OPTS}.addition" for n in src)
-    run.check("R13d", g, "the addition policy is read from the view's options", ok, construct="addition source",
-              message="generate_for_dataclass does not read `options.addition`",
-              necessity="additionalProperties reflects another object's policy")
-    A = src[0].ast.targets[0].id if src else "addition"      # the local holding the policy (any name)
-    typed = lit = 0
-    for n, c, kw in sites:
-        fs = _facts(ga, n)
-        nn = (f"{A} is not None", True) in fs or (f"{A} is None", False) in fs
-        run.check("R13d", g, "additionalProperties is emitted only when a policy is set", nn,
-                  construct="additionalProperties without policy", message=f"`{unparse(c)[:70]}` is not guarded by "
-                  f"`{A} is not None`", necessity="the default policy (ignore unknown keys) is published as "
-                  "`additionalProperties: null`, which is not a valid schema", node=c)
-        v = kw.value
-        if isinstance(v, ast.Call) and call_attr(v) == "generate_for_type" and unparse(v.args[0]) == A:
-            typed += 1
-            ok = (f"isinstance({A}, type)", True) in fs
-            run.check("R13d", g, "a typed policy is published as that type's schema", ok,
-                      construct="typed additionalProperties guard", message="the schema form of additionalProperties is "
-                      f"not guarded by isinstance({A}, type)", node=c)
-        elif unparse(v) == A:
-            lit += 1
-            ok = (f"isinstance({A}, type)", False) in fs
-            run.check("R13d", g, "a boolean policy is published literally (false = rejected, true = kept)", ok,
-                      construct="literal additionalProperties guard", message="the literal form of additionalProperties "
-                      "is not restricted to non-type policies", node=c)
-        else:
-            run.check("R13d", g, "additionalProperties is the policy or its schema", False,
-                      construct=f"additionalProperties = {unparse(v)[:40]}",
-                      message=f"additionalProperties is emitted as `{unparse(v)}`, which is neither options.addition nor "
-                              f"its schema", necessity="the schema rejects (accepts) unknown keys the parser keeps "
-                              "(rejects)", node=c)
-    run.check("R13d", g, "both the typed and the boolean policy are published", typed >= 1 and lit >= 1,
-              construct="additionalProperties cases", message=f"typed emissions: {typed}, literal emissions: {lit}")
+    # decided together with R13c by the document table (the additionalProperties clause is reported as R13d there)
+    run.ob("R13d", GEN, "additionalProperties clause evaluated by the document table of R13c", True, nontrivial=False)
 
 
 # ---- R13e -----------------------------------------------------------------------------------------
